@@ -163,3 +163,32 @@ theorem admittedWhileOk_of_sim {P : Map K V → K → Prop} {cmp : K → K → I
     | diverge => exact .stop (by intro r h; cases h)
 
 end AlgoVerif.C05
+
+namespace AlgoVerif.C05.Spec
+variable {K V : Type}
+
+/-- an answer admitted without the extremality demand is admitted with it once the key returned by
+`Peek`/`Delete` is shown to satisfy it -/
+theorem AdmitG.upgrade {P : Map K V → K → Prop} {cmp : K → K → Int} {eq : V → V → Bool} {cap : Nat}
+    {m m' : Map K V} {op : Op K V} {r : Res K V} (h : AdmitG (fun _ _ => True) cmp eq cap m op r m')
+    (hP : ∀ i k v, r = .ikv (some (i, k, v)) → P m k) : AdmitG P cmp eq cap m op r m' := by
+  cases h with
+  | insert_ok h1 h2 => exact .insert_ok h1 h2
+  | insert_fail h1 => exact .insert_fail h1
+  | changeKey_ok h1 => exact .changeKey_ok h1
+  | changeKey_fail h1 => exact .changeKey_fail h1
+  | delete_some h1 _ => exact .delete_some h1 (hP _ _ _ rfl)
+  | delete_none h1 => exact .delete_none h1
+  | deleteIndex_some h1 => exact .deleteIndex_some h1
+  | deleteIndex_none h1 => exact .deleteIndex_none h1
+  | deleteAll => exact .deleteAll
+  | peek_some h1 _ => exact .peek_some h1 (hP _ _ _ rfl)
+  | peek_none h1 => exact .peek_none h1
+  | peekIndex => exact .peekIndex
+  | containsIndex => exact .containsIndex
+  | containsKey h1 => exact .containsKey h1
+  | containsValue h1 => exact .containsValue h1
+  | size => exact .size
+  | isEmpty h1 => exact .isEmpty h1
+
+end AlgoVerif.C05.Spec
